@@ -51,10 +51,12 @@ Definition is_some {A} (o : option A) : bool := match o with Some _ => true | No
 Section Codecs.
   Variable b64_enc hex_enc : bytes -> bytes.
   Variable tool : bytes.                         (* base.LalPackSdp *)
-  (* true: the tree after "fix: rtmp2rtsp packs opus at the 48000 Hz rtp clock the
-     sdp announces"; false: the pinned tree, where the Opus packer ran at the
-     metadata's audiosamplerate while sdp.Pack wrote opus/48000 *)
-  Variable opus_fixed : bool.
+  (* true: the tree after the two rtmp2rtsp "fix:" commits of C06 - the Opus
+     packer runs at the 48000 Hz the sdp announces; an AVC sequence header with
+     several SPS / PPS is accepted (first SPS, first PPS) - false: the pinned
+     tree (Opus packer at the metadata's audiosamplerate; such a header
+     refused, so no video for RTSP consumers) *)
+  Variable rtsp_fixed : bool.
 
   Definition u8z (z : Z) : N := Z.to_N (z mod 256).
 
@@ -66,7 +68,7 @@ Section Codecs.
       let mk p := (mk_r2r (q_done s) (q_cache s) (q_vps s) (q_sps s) (q_pps s) (q_asc s) (q_apt s) (q_vpt s)
                           (q_arate s) (Some p) (q_vpacker s), Some p) in
       if (q_apt s =? pt_g711a)%Z || (q_apt s =? pt_g711u)%Z then mk (KPcm, q_arate s, 0)
-      else if (q_apt s =? pt_opus)%Z then mk (KOpus, if opus_fixed then opus_default_rate else q_arate s, 0)
+      else if (q_apt s =? pt_opus)%Z then mk (KOpus, if rtsp_fixed then opus_default_rate else q_arate s, 0)
       else if (q_apt s =? pt_aac)%Z then
         match q_asc s with
         | None => (s, None)
@@ -215,7 +217,12 @@ Section Codecs.
           if is_avc_key_seq_header m then
             match avc_parse_seq_header (rm_payload m) with
             | Ok (sps, pps) => do_analyze (set_params s0 (q_vps s0) (nil_if_empty sps) (nil_if_empty pps))
-            | _ => do_analyze (set_params s0 (q_vps s0) None None)
+            | _ =>
+              (* ParseSpsPpsListFromSeqHeader: the first SPS and the first PPS *)
+              match (if rtsp_fixed then avc_parse_seq_header_list (rm_payload m) else Err 0) with
+              | Ok (sps :: _, pps :: _) => do_analyze (set_params s0 (q_vps s0) (nil_if_empty sps) (nil_if_empty pps))
+              | _ => do_analyze (set_params s0 (q_vps s0) None None)
+              end
             end
           else if is_hevc_key_seq_header m then
             if is_ext_header m then
